@@ -30,7 +30,7 @@ func sub(m map[string]string, ss ...string) []string {
 }
 
 func propC09(c *Ctx) {
-	c.Explanation = "Decides, for all inputs and schedules, the structural mechanisms behind 'exactly the addressed socket or nobody': (D1) findEndpointLocked is loop-free and its complete path table is the four-step most-specific match of the property - keys (LocalPort,LocalAddress,RemotePort,RemoteAddress) = full id, id without local address, id without remote part, local port only, in that order, returning at the first hit; (D2) deliverPacket hands the packet to exactly the endpoint found and reports true only then; NIC.DeliverTransportPacket builds the id from the parsed ports and the route addresses and tries NIC demuxer, stack demuxer, default handler, unknown-destination handler each only when all previous ones declined; registerEndpoint rolls back exactly the protocols it registered; singleRegisterEndpoint rejects duplicates and inserts in the same critical section; (D3) DeliverNetworkPacket passes a packet to a network endpoint only when getRef found the destination address on this NIC, and getRef creates a temporary endpoint only under promiscuous mode or an owning subnet; forwarding only when enabled; (D4) endpoints/NIC/Stack tables are accessed only under their mutexes (lockset); (D5) Subnet.Contains and Route.Match return true only after every byte matched under the mask. NOT decided: that the maps contain what a history of register/close calls implies; reference counting."
+	c.Explanation = "Decides, for all inputs and schedules, the structural mechanisms behind 'exactly the addressed socket or nobody': (D1) findEndpointLocked is loop-free and its complete path table is the four-step most-specific match of the property - keys (LocalPort,LocalAddress,RemotePort,RemoteAddress) = full id, id without local address, id without remote part, local port only, in that order, returning at the first hit; (D2) deliverPacket hands the packet to exactly the endpoint found and reports true only then; NIC.DeliverTransportPacket builds the id from the parsed ports and the route addresses and tries NIC demuxer, stack demuxer, default handler, unknown-destination handler each only when all previous ones declined; registerEndpoint rolls back exactly the protocols it registered; singleRegisterEndpoint rejects duplicates and inserts in the same critical section; (D3) DeliverNetworkPacket passes a packet to a network endpoint only when getRef found the destination address on this NIC, and getRef creates a temporary endpoint only under promiscuous mode or an owning subnet; forwarding only when enabled; (D4) endpoints/NIC/Stack tables are accessed only under their mutexes (lockset); (D5) Subnet.Contains and Route.Match return true only after every byte matched under the mask. D7 also pairs every tryIncRef of the module with a release, hand-over or return on every path on which it succeeded. NOT decided: that the maps contain what a history of register/close calls implies; reference counting."
 	c.Assumptions = []string{"map lookups with equal keys observed inside one critical section return the same value"}
 
 	// D4 lockset
@@ -232,6 +232,12 @@ func propC09(c *Ctx) {
 			c.RefBalanced(d7, fn, acq, rel, xfer)
 		}
 	}
+	// the boolean form: every tryIncRef in the module (closed world)
+	nTry := 0
+	for _, fn := range c.ReviewedFuncs() {
+		nTry += c.TryRefBalanced(d7, fn, "(*stack.referencedNetworkEndpoint).tryIncRef", rel, xfer)
+	}
+	c.Check(nTry >= 8, d7, "tryIncRef/sites-seen", "stack/nic.go", "all try-acquire sites examined", "fewer tryIncRef sites than reviewed: the rule went blind")
 	c.CheckCallers(d7, acq, []CallerSpec{
 		{Fn: "(*stack.Stack).CheckLocalAddress", Target: "(*stack.NIC).findEndpoint", Args: []string{"$0.nics[$1]", "$2", "$3", "0"}, Why: "explicit NIC: probe that NIC only"},
 		{Fn: "(*stack.Stack).CheckLocalAddress", Target: "(*stack.NIC).findEndpoint", Args: []string{"next(range($0.nics))#2", "$2", "$3", "0"}, Why: "any NIC: probe each"},
